@@ -43,7 +43,11 @@ func newShimClient(w *World, version int) *shimClient {
 
 // call posts body to a shim endpoint and returns status and reply body.
 func (s *shimClient) call(action string, body []byte) (int, []byte, error) {
-	req, _ := http.NewRequest("POST", s.base+action, bytes.NewReader(body))
+	var rd io.Reader = bytes.NewReader(body)
+	if s.w.ShimChunked {
+		rd = struct{ io.Reader }{rd} // length unknown to net/http: chunked
+	}
+	req, _ := http.NewRequest("POST", s.base+action, rd)
 	req.Host = "example.test"
 	if s.Version >= 0 {
 		req.Header.Set("X-Websocket-Shim-Version", fmt.Sprint(s.Version))
